@@ -275,12 +275,32 @@ def policy_layout_roundtrips(ctx: Ctx, n: int):
                          f"[{m}] ({case['desc']})", desc)
                 break
             if x2 != x:
-                if nested and case["extra_mode"] in ("collect", "kwargs"):
+                if nested and case["extra_mode"] in ("collect", "kwargs") and _only_empty_branches_added(case, x, x2):
                     ctx.fail("roundtrip:policy-layout:nested-branch-keys-as-extra", f"load(dump(x)) != x: {x!r:.100} -> {x2!r:.140} [{m}]", desc)
                 else:
                     ctx.fail("roundtrip:policy-layout", f"load(dump(x)) != x: {x!r:.100} dumped as {d!r:.100} loads as {x2!r:.100} [{m}] "
                              f"({case['desc']})", desc)
                 break
+
+
+def _only_empty_branches_added(case, x, x2) -> bool:
+    """is the loaded object the original plus known BRANCH keys of the layout holding empty trees in its extra data?
+    (the recorded finding; anything else is a different round-trip failure)"""
+    import copy
+    attr = "extra" if case["extra_mode"] == "collect" else "kwargs"
+    branch_keys = {p[0] for p in case["paths"].values() if len(p) > 1}
+
+    def empty_tree(v):
+        return isinstance(v, dict) and all(empty_tree(w) for w in v.values())
+    try:
+        y = copy.deepcopy(x2)
+        extra = getattr(y, attr)
+        for k in list(extra):
+            if k in branch_keys and empty_tree(extra[k]) and k not in getattr(x, attr):
+                del extra[k]
+        return y == x
+    except Exception:  # noqa: BLE001
+        return False
 
 
 def _same_enum_value(a, b) -> bool:
